@@ -4,6 +4,15 @@
 import PonyVerif.Lemmas.Translate
 namespace PonyVerif.Model.Q
 
+theorem cmpInit_vals (d : Dialect) (op : POp) (c1 : MCls) (t1 : Ty) (n1 : Bool) (s1 : Sql) (c2 : MCls) (t2 : Ty) (n2 : Bool) (s2 : Sql)
+    (m : Monad) (ho : isIs op = false) (hcomp : comparable (MTy.ofTy t1) (MTy.ofTy t2) op = true)
+    (h : cmpInit d op (.val c1 t1 n1 s1) (.val c2 t2 n2 s2) = .ok m) :
+    m = .cmp op (coerceCmp d (MTy.ofTy t1) (MTy.ofTy t2) s1 s2).1 (coerceCmp d (MTy.ofTy t1) (MTy.ofTy t2) s1 s2).2 (n1 || n2) := by
+  have hne1 : (MTy.ofTy t1 == MTy.none) = false := by cases t1 <;> rfl
+  have hne2 : (MTy.ofTy t2 == MTy.none) = false := by cases t2 <;> rfl
+  cases op <;> simp [isIs] at ho <;>
+    simp [cmpInit, Monad.ty, hne1, hne2, hcomp, Monad.getsql, Monad.nullable] at h <;> exact h.symm
+
 theorem tr_ok (C : Cx) (hwt : WT C.sch C.env) (hL : LikeOK C.L C.d) : ∀ (e : Expr) (m : Monad),
     frag C.sch C.d e = true → tr C.sch C.d e = .ok m → Good C e m := by
   intro e
@@ -92,7 +101,7 @@ theorem tr_ok (C : Cx) (hwt : WT C.sch C.env) (hL : LikeOK C.L C.d) : ∀ (e : E
               simp [cmpInit, Monad.ty, hne, comparable, coerceCmp, Monad.getsql, Monad.nullable] at htr <;> subst htr <;>
               simp only [MonadOK, Monad.getsql, cmpSql] <;>
               refine ⟨_, (by first | exact evc_isNull C _ _ hev | exact evc_isNotNull C _ _ hev), ?_, fun _ => ?_⟩ <;>
-              simp [py, isNoneLit, hrn', hpy, PyR.asV, PyR.asK, encV_eq_null, bne, R.refl]
+              (simp only [py, hrn', Bool.false_eq_true, if_false]; simp [isNoneLit, hpy, PyR.asV, PyR.asK, encV_eq_null, bne, R.refl])
           · cases op <;> simp [isOrd] at ho <;>
               simp [cmpInit, Monad.ty, hne, comparable, coerceCmp] at htr <;> subst htr <;> simp [valueSorted, Monad.isCond]
       · have hln' : isNoneLit l = false := by simpa using hln
@@ -113,7 +122,19 @@ theorem tr_ok (C : Cx) (hwt : WT C.sch C.env) (hL : LikeOK C.L C.d) : ∀ (e : E
             have hne2 : (MTy.ofTy t2 == MTy.none) = false := by cases t2 <;> rfl
             have hcomp : ∀ o, comparable (MTy.ofTy t1) (MTy.ofTy t2) o = true ∨ isIs o = true := by
               intro o; cases t1 <;> cases t2 <;> cases o <;> simp_all [comparable, MTy.ofTy, sameClass, MTy.isNum, isIs]
-            sorry
+            have hcv := fun o => cmp_vals_ok C o hev1 hev2 hty1 hty2 hcl
+            have hpy : ∀ o, op.cmp? = some o → (py C.env (.cmp op l r)).asK = (match v1, v2 with
+                | some a, some b => pyCmp o a b
+                | _, _ => .unk) := by
+              intro o ho'
+              simp only [py, hrn', hln', Bool.false_eq_true, if_false, hpy1, hpy2, PyR.asV, ho']
+              cases v1 <;> cases v2 <;> simp [PyR.asK]
+            have hm := cmpInit_vals C.d op c1 t1 n1 s1 c2 t2 n2 s2 m ho ((hcomp op).resolve_right (by simp [ho])) htr
+            subst hm
+            refine ⟨?_, by simp [valueSorted, Monad.isCond]⟩
+            simp only [MonadOK, Monad.getsql]
+            cases op <;> simp [isIs] at ho <;> simp only [cmpSql] <;>
+              exact ⟨_, hcv _, by rw [hpy _ rfl]; exact R.refl _, fun _ => by rw [hpy _ rfl]⟩
   | inList ng x items ih => sorry
   | like k ng pat x ih => sorry
   | and l r ihl ihr =>
